@@ -2,6 +2,7 @@ package props
 
 import (
 	"fmt"
+	"strings"
 	"testing"
 
 	cose "github.com/veraison/go-cose"
@@ -49,6 +50,18 @@ func c13EncBytes(ctx string, prot, unprot rc.Val) ([]byte, error) {
 	}
 	h := bridge.Headers(prot, unprot)
 	switch ctx {
+	case "sign1-rawprot", "signature-rawprot":
+		// a decoded layer whose unprotected bucket the caller then edits: raw protected bytes retained
+		// (with the map a decoder would have produced), unprotected bucket from the map
+		h.RawProtected = protBstr(prot)
+	case "sign1-rawunprot", "signature-rawunprot":
+		h.RawUnprotected = rc.Encode(unprot, nil)
+	}
+	switch ctx {
+	case "sign1-rawprot", "sign1-rawunprot":
+		return (&cose.Sign1Message{Headers: h, Payload: []byte("p"), Signature: sig}).MarshalCBOR()
+	case "signature-rawprot", "signature-rawunprot":
+		return (&cose.Signature{Headers: h, Signature: sig}).MarshalCBOR()
 	case "sign1":
 		return (&cose.Sign1Message{Headers: h, Payload: []byte("p"), Signature: sig}).MarshalCBOR()
 	case "untagged":
@@ -73,20 +86,20 @@ func c13Wire(ctx string, prot, unprot rc.Val) (refcose.Kind, []byte) {
 		return refcose.KProtected, pb
 	case "unprotected":
 		return refcose.KUnprotected, ub
-	case "sign1", "untagged":
+	case "sign1", "untagged", "sign1-rawprot", "sign1-rawunprot":
 		w := []byte{0x84}
 		w = append(append(w, pb...), ub...)
 		w = append(w, 0x41, 'p')
 		w = append(w, tail...)
-		if ctx == "sign1" {
+		if ctx != "untagged" {
 			return refcose.KSign1, append([]byte{0xd2}, w...)
 		}
 		return refcose.KSign1Untagged, w
-	case "signature", "countersignature":
+	case "signature", "countersignature", "signature-rawprot", "signature-rawunprot":
 		w := []byte{0x83}
 		w = append(append(w, pb...), ub...)
 		w = append(w, tail...)
-		if ctx == "signature" {
+		if ctx != "countersignature" {
 			return refcose.KSignature, w
 		}
 		return refcose.KCountersignature, w
@@ -271,11 +284,14 @@ func TestC13_Grid(t *testing.T) {
 	// (2) IV / Partial IV pairs: buckets x spellings x contexts (+ each alone)
 	n0 := n
 	iv := rc.Bytes([]byte{1})
-	for _, ctx := range c13Ctxs {
+	for _, ctx := range append(append([]string{}, c13Ctxs...), "sign1-rawprot", "sign1-rawunprot", "signature-rawprot", "signature-rawunprot") {
 		for _, bi := range []string{"P", "U"} {
 			for _, bp := range []string{"P", "U"} {
 				if ctx == "protected" && (bi != "P" || bp != "P") || ctx == "unprotected" && (bi != "U" || bp != "U") {
 					continue
+				}
+				if strings.Contains(ctx, "-raw") && bi == bp {
+					continue // raw bytes supplied by the caller are emitted as they are; only the cross-bucket rule involves the library
 				}
 				for s1 := uint8(0); s1 < rc.NumSpellings; s1++ {
 					for s2 := uint8(0); s2 < rc.NumSpellings; s2++ {
@@ -298,7 +314,8 @@ func TestC13_Grid(t *testing.T) {
 	stats.ExhaustivePart("iv-partial-iv-pairs", (n-n0)/nsh)
 	// (3) crit x present-label combinations (protected bucket of every context, crit in unprotected too)
 	n0 = n
-	critEntries := []namedVal{{"present-int", rc.Int(4)}, {"absent-int", rc.Int(77)}, {"present-text", rc.Text("x")}, {"absent-text", rc.Text("y")},
+	critEntries := []namedVal{{"present-int", rc.Int(4)}, {"absent-int", rc.Int(77)}, {"absent-260(=4 mod 2^8)", rc.Int(260)},
+		{"absent-65540(=4 mod 2^16)", rc.Int(65540)}, {"absent--252(=4 mod 2^8)", rc.Int(-252)}, {"present-text", rc.Text("x")}, {"absent-text", rc.Text("y")},
 		{"bstr", rc.Bytes([]byte{4})}, {"float", rc.Float(4)}, {"null", rc.Null}, {"self", rc.Int(2)}}
 	for _, ctx := range c13Ctxs {
 		if ctx == "unprotected" {
